@@ -890,7 +890,13 @@ def _r3(ctx, pkg):
             continue
         seen.add(key)
         if f == "naunet/patches.py":
-            ctx.ok("R3", key, (f, line), "EnzoPatch.render saves and restores the element list around its temporary additions") if _patch_restores(pkg) else \
+            if _patch_restores(pkg):
+                ctx.ok("R3", key, (f, line), "EnzoPatch.render saves and restores the element list around its temporary additions")
+            elif any(isinstance(c, ast.Call) and isinstance(c.func, ast.Attribute) and c.func.attr in ("set_known_elements", "remove_known_elements", "reset")
+                     for c in ast.walk(pkg.modules[f])):
+                # something is handed back to Species, but not in the save-a-copy / restore-it spelling this rule reads
+                ctx.unrec("R3", key, (f, line), "the patch renderer changes the known-element list; how it restores it is not read")
+            else:
                 ctx.bad("R3", key, (f, line), "the patch renderer changes the known-element list and does not restore it")
             continue
         ok = q in SANCTIONED or _only_called_by_sanctioned(pkg, q)
@@ -918,6 +924,17 @@ def _r3(ctx, pkg):
                   [ln for ln in parses if ln not in deleg]
             if deleg and min(deleg) < min(own or [10 ** 9]):
                 ctx.ok("R3", f"{key}:installation", (NF, fn.lineno), "delegates to an installing entry point before any species name is parsed")
+                continue
+            # positive evidence only when nothing the method uses could install the lists: a decorator, or a function / class of the
+            # module / a method it names whose body calls set_known_elements is a restructuring this rule does not follow
+            named = {n.id for n in ast.walk(fn) if isinstance(n, ast.Name)} | {n.attr for n in ast.walk(fn) if isinstance(n, ast.Attribute)}
+            hidden = []
+            for x in sorted(named):
+                cand = pkg.functions.get((NF, x)) or ci.methods.get(x) or (pkg.classes[x].node if x in pkg.classes and pkg.classes[x].file == NF else None)
+                if cand is not None and cand is not fn and any(isinstance(c, ast.Call) and isinstance(c.func, ast.Attribute) and c.func.attr == "set_known_elements" for c in ast.walk(cand)):
+                    hidden.append(x)
+            if hidden:
+                ctx.unrec("R3", f"{key}:installation", (NF, fn.lineno), f"Network.{mname} parses species names; whether {hidden} installs the lists first is not decided")
                 continue
             ctx.bad("R3", f"{key}:installation", (NF, fn.lineno),
                     f"Network.{mname} parses species names but never installs this network's element lists: it uses whatever lists the last network left in Species")
@@ -1032,7 +1049,16 @@ def krome_reset(ctx, pkg, rule="R4"):
                         if isinstance(e, ast.Attribute) and isinstance(e.value, ast.Name) and e.value.id == "cls":
                             reset.add(e.attr)
     ctx.floor(rule, "directive attributes", len(mutated), 3, (KR, pre.lineno))
+    # ways initialize() may reset an attribute that the scan above does not see: setattr / vars / __dict__ on the class, a call on
+    # cls of a method that was not followed, a base-class initialize
+    unread = sorted({ast.unparse(c.func)[:40] for part in with_helpers(ini) for c in ast.walk(part) if isinstance(c, ast.Call) and (
+        (isinstance(c.func, ast.Name) and c.func.id in ("setattr", "vars", "super")) or
+        (isinstance(c.func, ast.Attribute) and isinstance(c.func.value, ast.Name) and c.func.value.id == "cls" and not _private(c.func.attr)))}
+        | {"__dict__" for part in with_helpers(ini) for n in ast.walk(part) if isinstance(n, ast.Attribute) and n.attr == "__dict__"})
     for a in sorted(mutated):
+        if a not in reset and unread:
+            ctx.unrec(rule, f"KROMEReaction.initialize resets {a}", (KR, ini.lineno), f"whether initialize() resets `{a}` is hidden behind {unread}")
+            continue
         ctx.check(a in reset, rule, f"KROMEReaction.initialize resets {a}", (KR, ini.lineno),
                   f"`{a}` is reset before every file" if a in reset else
                   f"`{a}` is changed by directive lines (preprocessing) but not reset in initialize(): directives of one file (also of a read that raised half-way) act on the next file")
@@ -1263,4 +1289,37 @@ BENIGN += [
 MUTANTS += [
     {"name": "patch-remembers-rendered-info", "file": "naunet/patches.py", "old": "    def _render_derived_field(self, info: NetworkInfo, path: Path | str = \"./\") -> None:\n",
      "new": "    def _render_derived_field(self, info: NetworkInfo, path: Path | str = \"./\") -> None:\n        self._info = info\n", "rules": ["R7"]},
+]
+
+# ---- R4: the per-file reset performed on ENTERING a context manager of the module (read in place by normalize.inline_context_managers) ----
+_FILE_INIT = ("        if rclass:\n            rclass.initialize()\n        else:\n            raise RuntimeError(f\"Unknown format: {format}\")\n\n"
+              "        with open(filename, \"r\") as networkfile:\n")
+_FILE_FINAL = "                    raise e\n\n        rclass.finalize()\n"
+_FACTORY_AT = "def _reaction_factory(react_string: str, format: str) -> Reaction:\n"
+_CM_GEN = ("from contextlib import contextmanager\n\n\n@contextmanager\ndef _reading(rclass, format):\n    if not rclass:\n        raise RuntimeError(f\"Unknown format: {format}\")\n"
+           "    rclass.initialize()\n    yield rclass\n    rclass.finalize()\n\n\n")
+_CM_CLS = ("class _Reading:\n    def __init__(self, rclass, format, fresh=True):\n        self.rclass = rclass\n        self.format = format\n        self.fresh = fresh\n\n"
+           "    def __enter__(self):\n        if not self.rclass:\n            raise RuntimeError(f\"Unknown format: {self.format}\")\n%s"
+           "        return self\n\n    def __exit__(self, exc_type, exc, tb):\n        if exc_type is None:\n            self.rclass.finalize()\n        return False\n\n\n")
+BENIGN += [
+    {"name": "file-reset-on-entering-generator-context-manager", "edits": [
+        {"file": NF, "old": _FACTORY_AT, "new": _CM_GEN + _FACTORY_AT},
+        {"file": NF, "old": _FILE_INIT, "new": "        with _reading(rclass, format), open(filename, \"r\") as networkfile:\n"},
+        {"file": NF, "old": _FILE_FINAL, "new": "                    raise e\n"}]},
+    {"name": "file-reset-on-entering-session-object", "edits": [
+        {"file": NF, "old": _FACTORY_AT, "new": _CM_CLS % "        self.rclass.initialize()\n" + _FACTORY_AT},
+        {"file": NF, "old": _FILE_INIT, "new": "        with _Reading(rclass, format):\n          with open(filename, \"r\") as networkfile:\n"},
+        {"file": NF, "old": _FILE_FINAL, "new": "                    raise e\n"}]},
+]
+MUTANTS += [
+    # the session resets the format class only for a network that is still empty
+    {"name": "session-object-resets-only-when-fresh", "edits": [
+        {"file": NF, "old": _FACTORY_AT, "new": _CM_CLS % "        if self.fresh:\n            self.rclass.initialize()\n" + _FACTORY_AT},
+        {"file": NF, "old": _FILE_INIT, "new": "        with _Reading(rclass, format, fresh=not self.reaction_list):\n          with open(filename, \"r\") as networkfile:\n"},
+        {"file": NF, "old": _FILE_FINAL, "new": "                    raise e\n"}], "rules": ["R4"]},
+    # the generator resets AFTER the block: the lines are decoded with the previous file's directives
+    {"name": "generator-context-manager-resets-on-leaving", "edits": [
+        {"file": NF, "old": _FACTORY_AT, "new": _CM_GEN.replace("    rclass.initialize()\n    yield rclass\n", "    yield rclass\n    rclass.initialize()\n") + _FACTORY_AT},
+        {"file": NF, "old": _FILE_INIT, "new": "        with _reading(rclass, format), open(filename, \"r\") as networkfile:\n"},
+        {"file": NF, "old": _FILE_FINAL, "new": "                    raise e\n"}], "rules": ["R4"]},
 ]
